@@ -16,7 +16,7 @@ def tbl_value(kind, idx):
     """z3 term of the table entry; registers positivity with the current path"""
     t = TBL[kind](idx)
     c = Ctx.current
-    if c is not None and t.get_id() not in c.positive:
+    if c is not None and (t.get_id() not in c.positive or c.scopes):
         c.mark_positive(t)
         c.assume(t > 0)
     return t
